@@ -13,6 +13,13 @@
           refused: `ApplyResultStaleMeta` without a commit),
      "U"  addressed to a hash slot this slot does not own  -> ApplyBatch fails,
      "M"  malformed payload                                 -> ApplyBatch fails.
+   An "A" command may also be a forwarded hash-slot-migration delta (ApplyDelta for an
+   owned hash slot h) that wraps a multi-item batch command whose items span h and
+   other hash slots: only the items of h belong to its effect.  Hash slots the slot
+   does not own are outside the abstract metadata altogether: no action of this
+   module writes there, and the harness checks directly, after every command of the
+   one-at-a-time run (accepted or refused), that their exported content is unchanged
+   (an empty one and one that holds another slot's rows).
    The abstract metadata is the sequence `hist` of "A" log indexes whose effect it
    contains; the real metadata is compared with the one-at-a-time run of the same
    log by the conformance harness (differential oracle), which maps `pos` to the
